@@ -213,7 +213,11 @@ func (p *Impl) Load(cacheFile string) (err error) {
 		}
 		return
 	}
-	lines := strings.Split(string(bytes.TrimRight(b, "\n")), "\n")
+	b = bytes.TrimRight(b, "\n")
+	if len(b) == 0 { // an empty cache, as saved before anything was listed successfully
+		return nil
+	}
+	lines := strings.Split(string(b), "\n")
 	return p.loadCachePkgs(lines)
 }
 
